@@ -432,6 +432,11 @@ public:
         m_memoryManager = theRHS.m_memoryManager;
         theRHS.m_memoryManager = temp;
 
+        // The blocks go with their block size...
+        const size_type     tempBlockSize = m_blockSize;
+        m_blockSize = theRHS.m_blockSize;
+        theRHS.m_blockSize = tempBlockSize;
+
         theRHS.m_blockIndex.swap(m_blockIndex);
         theRHS.m_freeBlockVector.swap(m_freeBlockVector);
     }
@@ -517,7 +522,7 @@ private:
 
     MemoryManager*      m_memoryManager;
 
-    const size_type     m_blockSize;
+    size_type           m_blockSize;
 
     BlockIndexType	    m_blockIndex; 
     BlockIndexType	    m_freeBlockVector;
